@@ -25,6 +25,9 @@ type Handler interface {
 	Spawn(obj interface{}) interface{}
 	TaskStart(handle interface{})
 	TaskEnd(handle interface{})
+	// TaskPanic is told about a panic that would otherwise have ended the
+	// process from a goroutine started by the program.
+	TaskPanic(handle interface{}, value interface{})
 }
 
 var handler Handler
@@ -77,8 +80,14 @@ func TaskStart(handle interface{}) {
 	}
 }
 
+// TaskEnd must be deferred directly: while a simulation is running it turns a
+// panic of the task's goroutine into a report to the simulator, so that the
+// crash is recorded with its schedule instead of killing the process.
 func TaskEnd(handle interface{}) {
 	if h := handler; h != nil {
+		if r := recover(); r != nil {
+			h.TaskPanic(handle, r)
+		}
 		h.TaskEnd(handle)
 	}
 }
